@@ -55,6 +55,10 @@ var (
 	gAgencyID = rapid.SampledFrom([]string{"MTA", "A", "x y"})
 )
 
+// DSTDays are civil dates on which some pool zone changes its offset.
+var DSTDays = [][3]int{{2024, 3, 10}, {2024, 11, 3}, {2023, 3, 12}, {2023, 11, 5}, {2024, 3, 31}, {2024, 10, 27}, {2024, 4, 7}, {2024, 10, 6},
+	{2024, 3, 9}, {2024, 3, 11}, {2024, 11, 2}, {2024, 11, 4}, {2018, 11, 4}, {2019, 2, 17}, {2024, 3, 17}, {2022, 11, 6}}
+
 // GenDate draws a civil date whose local midnight exists exactly once in loc.
 func GenDate(t *rapid.T, label string, zone string) string {
 	loc := LocOrUTC(zone)
@@ -66,6 +70,11 @@ func GenDate(t *rapid.T, label string, zone string) string {
 		if m == 2 && y%4 == 0 && (y%100 != 0 || y%400 == 0) {
 			d = 29
 		}
+	}
+	if rapid.IntRange(0, 5).Draw(t, label+"DSTDay") == 0 {
+		// days on which the zone's offset changes (02:00 transitions of New York, London, Lord Howe; midnight ones of Havana, Sao Paulo, which the loop below steps over)
+		ymd := rapid.SampledFrom(DSTDays).Draw(t, label+"DSTDate")
+		y, m, d = ymd[0], ymd[1], ymd[2]
 	}
 	for i := 0; i < 5 && !MidnightOK(y, m, d, loc); i++ {
 		d++ // steer away from days without a unique local midnight (d <= 28+5 may roll; re-normalised below)
